@@ -1324,7 +1324,8 @@ UNITS["bucket"]["items"].append(
                "why": "await erasure: every .await of handle_request is a tokio RwLock acquisition (data store, routing table); each guarded object became a parameter"},
      "rewrite": [
          (r"self\s*\.data_store\s*\.write\(\)\s*\.await", "data_store_g", "lock acquisition expression replaced by the parameter that stands for the guarded data store"),
-         (r"let routing = self\.routing_table\.read\(\)\.await;", "let routing = routing_g;", "lock acquisition replaced by the parameter that stands for the guarded routing table (read guard)"),
+         (r"let routing = self\.routing_table\.read\(\)\.await;", "let routing = routing_g;", "lock acquisition replaced by the parameter that stands for the guarded routing table (read guard)", "optional"),
+         (r"self\.(select_query_peers|select_storage_peers)\((\w+), (\w+)\)\.await", r"self.verif_\1_sequential(routing_g, \2, \3)", "call of the engine's own async selection helper renamed to its await-erased form verified in this unit (it takes the routing-table guard itself: the guarded table is passed on)", "optional"),
          (r"crate::dht::network_integration::ErrorCode::", "ErrorCode::", "path shortened (the enum is declared in this unit)"),
          (r"format!\(\s*\"Value too large: \{\} bytes \(max: \{\} bytes\)\",\s*value\.len\(\),\s*MAX_DHT_VALUE_SIZE\s*\)", "verif_error_text()", "error message text (format!) moved into an opaque shim: not part of any obligation"),
          (r"\"Unsupported message type\"\.to_string\(\)", "verif_error_text()", "error message text moved into an opaque shim"),
@@ -1365,7 +1366,7 @@ for _it in UNITS["bucket"]["items"]:
         if _nm == "put":
             _it["tags_by_owner"] = True
     elif _nm == "find_closest_nodes":
-        _it["serves"] = ["C02", "C05"]
+        _it["serves"] = ["C02", "C05", "C16"]
     else:
         _it["serves"] = ["C02", "C16"] + (["C05"] if _nm in _C05_DEPS else [])
 UNITS["bucket"]["search_tests"] = {"C02": "verif_search_c02", "C05": "verif_search_reqh_c05", "C16": "verif_search_c16_route"}  # the filter "verif_search_c02" also runs verif_search_c02_reply
@@ -1858,3 +1859,24 @@ UNITS["ipdiv"]["items"] += [
         forall|g: GeographicRegion| admitted_region(*old(routing_g), failed_node) == Some(g) ==> #[trigger] region_slot_returned(*final(geo_g), *old(geo_g), g), // @C13/engine/a_failed_node_dropped_from_the_routing_table_gives_back_its_region_slot
 """},
 ]
+
+# --- DhtCoreEngine::select_query_peers / select_storage_peers: with trust selection off, exactly the closest (C16; C02 replies may use them)
+UNITS["bucket"]["shims"]["DhtCoreEngine"] = (None, {"node_id": "NodeId", "trust_peer_selector": "Option<TrustAwarePeerSelector<EigenTrustEngine>>"})
+for _fn, _mult, _sel in (("select_query_peers", 2, "select_peers"), ("select_storage_peers", 3, "select_storage_peers")):
+    UNITS["bucket"]["items"].append(
+        {"impl": "DhtCoreEngine", "fn": _fn, "serves": ["C16", "C02"], "tags_by_owner": True,
+         "block": {"name": "verif_%s_sequential" % _fn, "of": "DhtCoreEngine::%s" % _fn,
+                   "sig": "fn verif_%s_sequential(&self, routing_g: &KademliaRoutingTable, key: &DhtKey, count: usize) -> Vec<NodeInfo>" % _fn,
+                   "why": "await erasure: the only .await is a tokio RwLock acquisition (routing table, read guard); the guarded table became a parameter"},
+         "drop_all": [(r"drop\(routing\);\n", "explicit release of the read guard (the parameter is a plain reference)")],
+         "rewrite": [
+             (r"let routing = self\.routing_table\.read\(\)\.await;", "let routing = routing_g;", "lock acquisition replaced by the parameter that stands for the guarded routing table"),
+             (r"candidates\.into_iter\(\)\.take\(count\)\.collect\(\)", "{ proof { lemma_prefix_of_closest(routing_g, key, (count * %d) as usize, count, candidates@); } verif_take_prefix(candidates, count) }" % _mult, "iterator chain `v.into_iter().take(n).collect()` renamed to a shim fn (contract: the first min(n, len) elements); proof block"),
+             (r"selector\.%s\(key, &candidates, count\)" % _sel, "selector.%s(key, candidates.as_slice(), count)" % _sel, "deref coercion &Vec<T> -> &[T] made explicit"),
+         ],
+         "spec": """
+    requires
+        routing_g.wf(), count * %d <= usize::MAX,
+    ensures
+        self.trust_peer_selector.is_none() ==> fcn_post(routing_g, key, count, r@), // @C16/select/with_trust_selection_disabled_the_choice_is_exactly_the_closest_candidates_in_distance_order
+""" % _mult})
